@@ -14,14 +14,17 @@ def main():
     meta = json.load(open(d + "/meta.json"))
     checks = [meta["property"]]
     tier = "quick"
+    patch = "patch.diff"
     for a in sys.argv[2:]:
+        if a.startswith("--patch="):
+            patch = a.split("=")[1]
         if a.startswith("--checks="):
             checks = a.split("=")[1].split(",")
         if a.startswith("--tier="):
             tier = a.split("=")[1]
     st = subprocess.run("git -C /repo status --porcelain", shell=True, capture_output=True, text=True).stdout.strip()
     assert st == "", "/repo is dirty: " + st
-    rc, o = sh("git -C /repo apply %s/patch.diff" % d)
+    rc, o = sh("git -C /repo apply %s/%s" % (d, patch))
     assert rc == 0, o
     det = meta.get("detection")
     if not isinstance(det, dict):
